@@ -25,7 +25,7 @@ pub enum Chunking {
 }
 
 /// Behaviour of one end of a pipe.
-#[derive(Clone, Debug, serde::Serialize, serde::Deserialize, Default)]
+#[derive(PartialEq, Clone, Debug, serde::Serialize, serde::Deserialize, Default)]
 pub struct EndCfg {
     #[serde(default)]
     pub chunking: Chunking,
@@ -410,6 +410,20 @@ impl AsyncWrite for WriteEnd {
             w.wake();
         }
         Poll::Ready(Ok(n))
+    }
+
+    /// Like a TCP socket, the simulated one takes vectored writes (and may accept any prefix of them).
+    fn poll_write_vectored(self: Pin<&mut Self>, cx: &mut Context<'_>, bufs: &[io::IoSlice<'_>]) -> Poll<io::Result<usize>> {
+        let mut all = Vec::with_capacity(bufs.iter().map(|b| b.len()).sum());
+        for b in bufs {
+            all.extend_from_slice(b);
+        }
+        self.world.stat("net.vectored_write");
+        self.poll_write(cx, &all)
+    }
+
+    fn is_write_vectored(&self) -> bool {
+        true
     }
 
     fn poll_flush(self: Pin<&mut Self>, _cx: &mut Context<'_>) -> Poll<io::Result<()>> {
